@@ -170,8 +170,7 @@ class Check:
                 lines = events_by_shard[k]
                 for f in fails:
                     tid = f["t"]
-                    f["trace"] = [json.loads(x) for x in lines if json.loads(x).get("t") == tid] if len(lines) < 200000 \
-                        else self._trace_of(lines, f["l"] - 1, tid)
+                    f["trace"] = self._trace_of(lines, f["l"] - 1, tid)
                     results.append(f)
                 shutil.rmtree(r.scratch, ignore_errors=True)
         self.cov["traces_validated_against_impl"] += n_traces
@@ -181,11 +180,10 @@ class Check:
 
     @staticmethod
     def _trace_of(lines, idx, tid):
-        lo = idx
-        while lo > 0 and json.loads(lines[lo - 1]).get("t") == tid:
-            lo -= 1
+        # events of one trace are contiguous and numbered i = 0, 1, 2, ...
+        lo = idx - json.loads(lines[idx])["i"]
         hi = idx
-        while hi + 1 < len(lines) and json.loads(lines[hi + 1]).get("t") == tid:
+        while hi + 1 < len(lines) and json.loads(lines[hi + 1]).get("t") == tid and hi - lo < 5000:
             hi += 1
         return [json.loads(x) for x in lines[lo:hi + 1]]
 
